@@ -246,18 +246,19 @@ Dec2(tn, b, pos, lim) ==
           ELSE IF s.v = 0 THEN OK2(Default2(tn), s.pos)
           ELSE LET blim == s.pos + s.v - 1
                    c == Size2At(b, s.pos, blim)
-               IN IF ~c.ok THEN Err2
+                   \* the count of a constant-size array may be any size value, also one beyond 2^31
+                   cp == ParseSize2(Concrete(SubSeq(b, s.pos, blim)))
+               IN IF t.tuple /\ ~t.dyn /\ ~IsBitElem(t.elem.t) THEN
+                    (IF ~cp.ok THEN Err2
+                     ELSE LET n == N4(t.count)
+                              m == IF cp.val # -1 /\ cp.val < n THEN cp.val ELSE n
+                              r == DecElems2(t, b, s.pos + cp.consumed, blim, m, <<>>)
+                          IN IF ~r.ok THEN Err2
+                             ELSE OK2(r.v \o [j \in 1..(n - m) |-> Default2(t.elem.t)], blim + 1))
+                  ELSE IF ~c.ok THEN Err2
                   ELSE IF IsBitElem(t.elem.t) THEN
                          (IF (c.v + 7) \div 8 > blim - c.pos + 1 THEN Err2
                           ELSE OK2(BitsDec(SubSeq(b, c.pos, blim), c.v), blim + 1))
-                  \* an array of constant size n ([n]T): the count is explicit all the same; missing elements
-                  \* are default, surplus ones are ignored (TL2 primer, "Massivy"), and no count is allocated
-                  ELSE IF t.tuple /\ ~t.dyn THEN
-                         (LET n == N4(t.count)
-                              m == IF c.v < n THEN c.v ELSE n
-                              r == DecElems2(t, b, c.pos, blim, m, <<>>)
-                          IN IF ~r.ok THEN Err2
-                             ELSE OK2(r.v \o [j \in 1..(n - m) |-> Default2(t.elem.t)], blim + 1))
                   ELSE IF c.v > blim - c.pos + 1 THEN Err2
                   ELSE LET r == DecElems2(t, b, c.pos, blim, c.v, <<>>) IN
                        IF ~r.ok THEN Err2
